@@ -57,7 +57,7 @@ def cases(tier, r):
   for _ in range(600 if tier == 'quick' else 10000):
     yield 'dag', {'graph': True, 'seed': r.getrandbits(48), 'size': r.choice([4, 7, 11]),
                   'tag': r.randrange(len(targets.TAGS)),
-                  'op': r.choice(['set_tagged', 'replace', 'list', 'survive', 'tagged_value'])}
+                  'op': r.choice(['set_tagged', 'replace', 'replace_held', 'list', 'survive', 'tagged_value', 'tagged_value', 'late_annotation'])}
 
 
 def make_root(case):
@@ -152,7 +152,7 @@ def execute(case):
   op = case['op']
   req = None
   try:
-    if op in ('set_tagged', 'replace', 'list'):
+    if op in ('set_tagged', 'replace', 'list', 'replace_held'):
       req, enc = graphs.encode(root)
       name_of = graphs.unique_fn_names(enc, req)
       nodes0 = C15.reachable_buildables(root)
@@ -179,6 +179,51 @@ def execute(case):
           [(lambda x: isinstance(x, list) and id(x) not in enc.ids and x == v, 'NEW1')])
       obs['exact'] = check_exact(root, before, tag, v, deep=True)
       obs['n_hit'] = sum(len(tagged_keys(b['node'], tag)) for b in before.values())
+    elif op == 'replace_held':
+      # the Selection object is kept while tags are edited: it selects what is tagged WHEN it is used
+      try:
+        sel = selectors.select(root, tag=tag)           # (with the emptiness check, as by default)
+      except Exception:
+        sel = selectors.select(root, tag=tag, check_nonempty=False)
+      list(sel)                                          # ... and it has been iterated once already
+      rr = random.Random(case['seed'] ^ 0x77)
+      nodes_ = C15.reachable_buildables(root)
+      for n in nodes_:
+        for k in list(n.__arguments__):
+          if isinstance(k, str) and rr.random() < 0.3:
+            try:
+              if tagged_keys(n, tag) and k in tagged_keys(n, tag):
+                for t in [t for t in n.__argument_tags__[k] if issubclass(t, tag)]:
+                  fdl.remove_tag(n, k, t)
+              else:
+                fdl.add_tag(n, k, rr.choice([t for t in targets.TAGS if issubclass(t, tag)]))
+            except Exception:
+              pass
+      before = snapshot(root)
+      v = [Tok(7780)]
+      sel.replace(v)
+      obs['exact'] = check_exact(root, before, tag, v, deep=True)
+      obs['n_hit'] = sum(len(tagged_keys(b['node'], tag)) for b in before.values())
+      req = None
+    elif op == 'late_annotation':
+      # the annotation of a parameter names a tag that only becomes resolvable (or is only added)
+      # AFTER a first Config of the callable was made: later Configs carry the tag
+      ns = {}
+      exec("import typing\ndef late_fn(x: 'typing.Annotated[int, LateTag]' = 0, y=1):\n  return (x, y)\n"
+           "def later_fn(x=0, y=1):\n  return (x, y)\n", ns)
+      f1, f2 = ns['late_fn'], ns['later_fn']
+      first = [fdl.Config(f1), fdl.Config(f2)]
+      ns['LateTag'] = tag
+      import typing as _t
+      f2.__annotations__ = {'y': _t.Annotated[int, tag]}
+      c1, c2 = fdl.Config(f1, x=1), fdl.Config(f2)
+      holder = fdl.Config(graphs.node_fn(1, 0), p=[c1, c2])
+      fdl.set_tagged(holder, tag=tag, value=5)
+      obs['late'] = [tag in c1.__argument_tags__.get('x', ()), tag in c2.__argument_tags__.get('y', ()),
+                     c1.__arguments__.get('x') == 5, c2.__arguments__.get('y') == 5,
+                     not first[0].__argument_tags__.get('x')]
+      obs['n_hit'] = 1
+      req = None
     elif op == 'list':
       want = set()
       for n in C15.reachable_buildables(root):
@@ -352,7 +397,7 @@ def oracle(case, real):
     return tagops_oracle(case, real)
   if 'raised' in real:
     return {'what': f"{real['op']} raised", 'raised': real['raised']}
-  if real['op'] in ('set_tagged', 'replace') and real['exact'] is not None:
+  if real['op'] in ('set_tagged', 'replace', 'replace_held') and real['exact'] is not None:
     return {'what': f"{real['op']}: {real['exact']}"}
   if real['op'] == 'list' and not (real['list_exact'] and real['list_super_ok']):
     return {'what': 'list_tags is not the union of the tag sets of reachable Buildables'}
@@ -361,6 +406,10 @@ def oracle(case, real):
            if v is not True and v not in ('skipped-positional', 'raised UnserializableValueError')}
     if bad:
       return {'what': 'tags (or arguments) did not survive a transformation', 'failed': bad}
+  if real['op'] == 'late_annotation':
+    if not all(real['late'][:4]):
+      return {'what': 'a tag given by an annotation that became resolvable / was added after a first Config of '
+              'the callable is not attached to later Configs', 'observed': real['late']}
   if real['op'] == 'tagged_value':
     if not (real['tv_builds_to_value'] and real['tv_unfilled_raises'] and real['tv_expands']):
       return {'what': 'TaggedValue does not build to its value / fail when unfilled', 'observed': real}
